@@ -114,6 +114,12 @@ func (c09Common) SelfDeadlock(stack string) (class, detail string) {
 		return "I5 self-deadlock when a go-away connection that still carries streams is closed (streams never destroyed)",
 			"streamConn.Reset holds sc.clientMutex while it resets the streams; activeClientMultiplex.OnDestroyStream, seeing state GoAway, calls codecClient.ActiveRequestsNum -> streamConn.ActiveStreamsNum, which read-locks the same mutex: the closing goroutine waits for itself, no stream of the connection is ever destroyed, Requests / upstream_request_active are never released"
 	}
+	// poolPingPong.Close holds p.clientMux while it closes the idle connections; the close event
+	// reaches activeClientPingPong.OnEvent -> removeFromPool, which locks p.clientMux again
+	if a, b := strings.Index(stack, "(*activeClientPingPong).removeFromPool"), strings.Index(stack, "(*poolPingPong).Close("); a >= 0 && b > a {
+		return "I3 self-deadlock in pool Close with an idle connection (idle connections never leave the books)",
+			"poolPingPong.Close holds clientMux while closing the idle connections; the synchronous close event runs activeClientPingPong.OnEvent -> removeFromPool, which locks clientMux again: the caller of Close waits for itself while holding the pool mutex, every later NewStream on this pool blocks too"
+	}
 	return "", ""
 }
 
@@ -177,7 +183,7 @@ func (c09PingPong) NewPool(ctx context.Context, host types.Host) types.Connectio
 func (c09PingPong) Prepare(pool types.ConnectionPool, ctx context.Context) (bool, error) {
 	return pool.CheckAndInit(ctx), nil
 }
-func (c09PingPong) Guarded() bool                                                   { return false }
+func (c09PingPong) Guarded() bool                                                   { return true }
 func (c09PingPong) Quiesce(pool types.ConnectionPool, shutdownRequested bool) error { return nil }
 func (c09PingPong) Books(pool types.ConnectionPool) c09.Books {
 	p := pool.(*poolPingPong)
